@@ -10,6 +10,18 @@ import (
 	"verif/sa/eng"
 )
 
+// plainLocks strips the "?N" condition suffix from entry assumptions.
+func plainLocks(ls []string) []string {
+	var out []string
+	for _, l := range ls {
+		if i := strings.Index(l, "?"); i >= 0 {
+			l = l[:i]
+		}
+		out = append(out, l)
+	}
+	return out
+}
+
 // fieldGuard says: field Type.Field (in package pkg) is accessed only with the
 // lock stored in sibling field LockField of the same object held.
 type fieldGuard struct {
@@ -112,7 +124,7 @@ func locksetRuleX(c *eng.Ctx, rule string, pkgs []string, guards []fieldGuard, e
 					}
 				}
 				if held == nil {
-					held = eng.HeldLocks(fn, ops, entry[name])
+					held = eng.HeldLocks(fn, ops, plainLocks(entry[name]))
 				}
 				base := strings.TrimPrefix(eng.Render(fa.X), "&")
 				lock := base + "." + g.lockField
@@ -156,10 +168,26 @@ func locksetRuleX(c *eng.Ctx, rule string, pkgs []string, guards []fieldGuard, e
 				}
 				n++
 				if held == nil {
-					held = eng.HeldLocks(fn, ops, entry[eng.FuncName(fn)])
+					held = eng.HeldLocks(fn, ops, plainLocks(entry[eng.FuncName(fn)]))
 				}
 				recv := strings.TrimPrefix(eng.Render(call.Common().Args[0]), "&")
 				for _, l := range locks {
+					if i := strings.Index(l, "?"); i >= 0 {
+						// conditional assumption "lock?N": the caller holds the lock iff it passes true as argument N
+						var idx int
+						fmt.Sscanf(l[i+1:], "%d", &idx)
+						l = l[:i]
+						v, isC := eng.ConstBool(call.Common().Args[idx])
+						if !isC {
+							c.Check(rule, "caller-holds:"+callee+"<-"+eng.FuncName(fn), call.Pos(), false, "the lock-held flag passed to "+callee+" is a constant", eng.Render(call.Common().Args[idx]))
+							continue
+						}
+						if !v {
+							need := strings.Replace(l, "p0", recv, 1)
+							c.Check(rule, "caller-does-not-hold:"+callee+"<-"+eng.FuncName(fn), call.Pos(), !held[call.(ssa.Instruction)][need], callee+" is told the lock is not held, and indeed the caller does not hold "+need+" (it would self-deadlock otherwise)")
+							continue
+						}
+					}
 					need := strings.Replace(l, "p0", recv, 1)
 					c.Check(rule, "caller-holds:"+callee+"<-"+eng.FuncName(fn), call.Pos(), held[call.(ssa.Instruction)][need], callee+" is called with "+need+" held (its accesses rely on that)", "held: "+eng.LockNames(held[call.(ssa.Instruction)]))
 				}
